@@ -58,7 +58,6 @@ func c12Scenario(sp c12Spec) *explore.Scenario {
 			if spec.Msize != 0 {
 				st.serverMsize = spec.Msize
 			}
-			st.cli.FaultyReads, st.cli.FaultyWrites = false, false
 			st.ncallers = spec.Pending
 			if spec.Late {
 				st.ncallers++
@@ -133,7 +132,7 @@ func c12Scenario(sp c12Spec) *explore.Scenario {
 			if !st.connect() {
 				return st
 			}
-			st.cli.FaultyReads, st.cli.FaultyWrites = spec.FaultR, spec.FaultW
+			st.cli.SetFaulty(spec.FaultR, spec.FaultW)
 			if spec.CancelAll {
 				vsched.Go("cancel-session", func() { st.cancel() })
 			}
@@ -251,7 +250,130 @@ func c12Scenarios() []*explore.Scenario {
 	for _, sp := range c12Specs() {
 		out = append(out, c12Scenario(sp))
 	}
+	out = append(out, c12WrongTypeAll())
 	return out
+}
+
+type c12WT struct {
+	results map[string]string // method -> "err" | "ok"
+	done    bool
+	sessErr error
+}
+
+// c12WrongTypeAll: every session method is called once; the peer answers
+// each request with a well-formed reply of another type. Every call must
+// surface an error.
+func c12WrongTypeAll() *explore.Scenario {
+	wrong := func(m p9p.Message) p9p.Message {
+		q := p9p.Qid{Path: 1}
+		switch m.(type) {
+		case p9p.MessageTauth:
+			return p9p.MessageRattach{Qid: q}
+		case p9p.MessageTattach:
+			return p9p.MessageRauth{Qid: q}
+		case p9p.MessageTwalk:
+			return p9p.MessageRattach{Qid: q}
+		case p9p.MessageTopen:
+			return p9p.MessageRcreate{Qid: q, IOUnit: 1}
+		case p9p.MessageTcreate:
+			return p9p.MessageRopen{Qid: q, IOUnit: 1}
+		case p9p.MessageTread:
+			return p9p.MessageRwrite{Count: 3}
+		case p9p.MessageTwrite:
+			return p9p.MessageRread{Data: []byte("abc")}
+		case p9p.MessageTclunk:
+			return p9p.MessageRremove{}
+		case p9p.MessageTremove:
+			return p9p.MessageRclunk{}
+		case p9p.MessageTstat:
+			return p9p.MessageRwstat{}
+		case p9p.MessageTwstat:
+			return p9p.MessageRclunk{}
+		}
+		return p9p.MessageRflush{}
+	}
+	return &explore.Scenario{
+		Name:  "wrong-type-every-method",
+		Cache: true,
+		Body: func() any {
+			st := &c12WT{results: map[string]string{}}
+			r := newCliRun(false)
+			vsched.Go("server", func() {
+				if !r.serverNegotiate() {
+					return
+				}
+				for {
+					f, err := r.srv.ReadFrameOr(func() bool { return st.done })
+					if err != nil || f == nil {
+						break
+					}
+					fc, _, derr := refcodec.Decode(f[4:])
+					if derr != nil {
+						break
+					}
+					r.srv.Write(refcodec.EncodeFrame(fc.Tag, wrong(fc.Message)))
+				}
+				r.srv.Close()
+			})
+			vsched.Go("client", func() {
+				defer func() { st.done = true; vsched.Yield("client.end", r.srvObj()) }()
+				if !r.connect() {
+					st.sessErr = r.sessErr
+					return
+				}
+				c := r.sess
+				ctx := context.Background()
+				rec := func(m string, err error) {
+					if err != nil {
+						st.results[m] = "err"
+					} else {
+						st.results[m] = "ok"
+					}
+				}
+				_, err := c.Auth(ctx, 1, "u", "a")
+				rec("auth", err)
+				_, err = c.Attach(ctx, 1, p9p.NOFID, "u", "a")
+				rec("attach", err)
+				_, err = c.Walk(ctx, 1, 2, "a")
+				rec("walk", err)
+				_, _, err = c.Open(ctx, 1, p9p.OREAD)
+				rec("open", err)
+				_, _, err = c.Create(ctx, 1, "n", 0644, p9p.ORDWR)
+				rec("create", err)
+				_, err = c.Read(ctx, 1, make([]byte, 8), 0)
+				rec("read", err)
+				_, err = c.Write(ctx, 1, []byte("abc"), 0)
+				rec("write", err)
+				_, err = c.Stat(ctx, 1)
+				rec("stat", err)
+				rec("wstat", c.WStat(ctx, 1, p9p.Dir{}))
+				rec("clunk", c.Clunk(ctx, 1))
+				rec("remove", c.Remove(ctx, 1))
+			})
+			return st
+		},
+		Check: func(state any, e *vsched.Exec) (string, []explore.Finding) {
+			st := state.(*c12WT)
+			var fs []explore.Finding
+			if len(e.Panics) > 0 {
+				fs = append(fs, explore.Finding{Sig: "C12:panic", Msg: panicList(e)})
+			}
+			if !st.done {
+				fs = append(fs, explore.Finding{Sig: "C12:call-hangs", Msg: "calls did not finish; blocked: " + blockedList(e)})
+				return "stuck", fs
+			}
+			var ok []string
+			for _, m := range []string{"auth", "attach", "walk", "open", "create", "read", "write", "stat", "wstat", "clunk", "remove"} {
+				if st.results[m] == "ok" {
+					ok = append(ok, m)
+				}
+			}
+			if len(ok) > 0 {
+				fs = append(fs, explore.Finding{Sig: "C12:wrong-type-accepted:" + strings.Join(ok, "+"), Msg: fmt.Sprintf("the peer answered every request with a well-formed reply of the wrong type, yet these calls reported success: %v", ok)})
+			}
+			return fmt.Sprintf("accepted=%d", len(ok)), fs
+		},
+	}
 }
 
 func c12(c *core.Ctx) {
@@ -270,5 +392,7 @@ func c12(c *core.Ctx) {
 			plans = append(plans, Plan{Sc: sc, Delay: true, Max: 5, Dev: sp.Dev}, Plan{Sc: sc, Max: 2, Dev: sp.Dev})
 		}
 	}
+	wt := c12WrongTypeAll()
+	plans = append(plans, Plan{Sc: wt, Delay: true, Max: 2})
 	runPlans(c, plans)
 }
